@@ -68,6 +68,7 @@ def check(run: Run) -> None:
     _type_table(run, cm)
     _calendar_gates(run, cm)
     _regex_member(run, cm)
+    _splitter_quotes(run, cm)
 
 
 # ---------------------------------------------------------------- R08.1
@@ -1109,6 +1110,30 @@ def _regex_member(run: Run, cm) -> None:
         run.instance("R08.11", cm.loc(a.ast), "REGEX accepts only where the match held", ok=good)
         if not good:
             run.violation("R08.11", cm, fi.qualname, a.ast, "an accepting return of REGEX is reachable although the pattern did not match")
+
+
+def _splitter_quotes(run: Run, cm) -> None:
+    run.rule("R08.12", "members are separated where the chain text separates them: the bracket-depth scanner of ConstraintChain._split_parts copies quoted text through - every change of its depth counter happens only where a quote flag (toggled at each unescaped \") is false - so a bracket inside REGEX[\"...\"] cannot swallow the members that follow", 2)
+    fi = cm.func("ConstraintChain._split_parts")
+    cfg = CFG(fi.node)
+    depth_updates = [n for n in cfg.nodes if isinstance(n.ast, ast.AugAssign) and isinstance(n.ast.target, ast.Name) and isinstance(n.ast.op, (ast.Add, ast.Sub)) and isinstance(n.ast.value, ast.Constant) and n.ast.value.value == 1]
+    if not depth_updates:
+        run.instance("R08.12", cm.loc(fi.node), "_split_parts: no bracket-depth counter (nothing can be swallowed by nesting)", ok=True, nontrivial=False)
+        run.instance("R08.12", cm.loc(fi.node), "_split_parts: (no scanner)", ok=True, nontrivial=False)
+        return
+    # quote flags: a local toggled with `F = not F`
+    flags = {a.targets[0].id for a in walk_no_nested(fi.node) if isinstance(a, ast.Assign) and len(a.targets) == 1 and isinstance(a.targets[0], ast.Name) and isinstance(a.value, ast.UnaryOp) and isinstance(a.value.op, ast.Not) and is_name(a.value.operand, a.targets[0].id)}
+    toggles_on_quote = set()
+    for n in cfg.nodes:
+        if isinstance(n.ast, ast.Assign) and len(n.ast.targets) == 1 and isinstance(n.ast.targets[0], ast.Name) and n.ast.targets[0].id in flags:
+            if any(val and isinstance(t, ast.Compare) and any(isinstance(c, ast.Constant) and c.value == '"' for c in ast.walk(t)) for t, val in atomic_conditions(cfg, n.id)):
+                toggles_on_quote.add(n.ast.targets[0].id)
+    for n in depth_updates:
+        conds = atomic_conditions(cfg, n.id)
+        ok = any((not val) and isinstance(t, ast.Name) and t.id in toggles_on_quote for t, val in conds)
+        run.instance("R08.12", cm.loc(n.ast), f"_split_parts: `{norm(n.ast)}` happens only outside quotes", ok=ok)
+        if not ok:
+            run.violation("R08.12", cm, fi.qualname, n.ast, "the separator scanner counts a bracket that stands inside a quoted argument: REGEX[\"^[(]x$\"] followed by further members is read as one unparsable member, the field loses its whole chain (REQ no longer reported, later members never reject)")
 
 
 def _region(cfg: CFG, test: int) -> set[int]:
